@@ -1,42 +1,40 @@
 import Pyc.Proofs.PackFit
 
-/-! # C08 (extension PackFit) — do the change outputs fit the maximum value size?
+/-! # C08 (extension PackFit) — the change outputs fit the maximum value size
 
 C08 says of every change output the builder adds: "its value fits the maximum value size, with large token bundles split
 across several outputs without losing or duplicating any token".  The main file proves the minimum-ADA half and
 `pack_preserves` (under the hypothesis that the `break` of `_pack_tokens_for_change` is not taken); the size half was
-only evaluated.  Here it is proved as far as it is true, and refuted where it is not.
+only evaluated.  An earlier version of this file REFUTED it for the code as it was (a last change output of 2^32 lovelace or
+more was measured with a 5-byte minimum ADA and emitted with a 9-byte coin, up to 4 bytes over the limit); the code was
+repaired (8c81354) and the clause is now PROVED (`change_fit`, `final_changes_fit`).
 
-How the code decides (txbuilder.py:792-895, model `Pyc.Builder.overflow / packAsset / packPolicies / packTokens`):
+How the code decides (txbuilder.py:792-898, model `Pyc.Builder.overflow / packAsset / packPolicies / packTokens`):
 
+* every output under construction — the first one and each one opened after a chunk is closed — holds the WHOLE change coin;
 * a chunk is closed BEFORE the asset that would overflow it is added; the probe measures `len(v.to_cbor())` of the value
   `v` = (assets already flushed into the output) + (buffered assets of the current policy) + (the new asset), whose coin has
-  been REPLACED by `min_lovelace_post_alonzo` of that output (`probe_measures`).  The coin the output holds — the whole
-  change coin for the first output, 0 for every later one — enters only through that minimum;
+  been REPLACED by the larger of `min_lovelace_post_alonzo` of that output and the change coin (`probe_measures`);
 * after a chunk is closed, the asset that overflowed is put into the fresh buffer WITHOUT being measured on its own;
-* at the end of each policy the flushed output is measured once more; on overflow the output is reset to `old_amount` and
-  the loop `break`s: the buffered assets of that policy and ALL remaining policies are dropped.
+* at the end of each policy the flushed output is measured once more, the same way; on overflow the output is reset to
+  `old_amount` and the loop `break`s: the buffered assets of that policy and ALL remaining policies are dropped.
 
 Results (all quantify over every parameter set, address, change value; no size bound):
 
 * `chunk_provenance`: every chunk returned is empty, or was measured and found to fit, or is ONE asset of the change on its
   own (one policy with one name) — so an oversized chunk can only be a single asset that alone exceeds the limit
   (`oversized_chunk_is_single`); the packing never loops and never raises (it is a pair of `for` loops: total functions).
-* `pack_fit_partial`: if no single asset alone exceeds the limit, every chunk `m` fits with ANY coin `c` up to the
-  difference of coin widths: `len(cbor(Value(c, m))) + width(probe coin) ≤ max_val_size + width(c)`.
-* `_calc_change` funds every output but the last with exactly the coin the probe used when the output is not the first
-  (`change_fit_middle`: those outputs fit, no side condition), and the last output with ALL the remaining ADA:
-  `change_fit_partial`, and `change_fit_below_2pow32`: all change outputs fit whenever every one of them holds less than
-  2^32 lovelace (4 294.967296 ADA) and coins-per-byte ≥ 410.
-* `change_fit_counterexample`: the unconditional claim is FALSE — a change of exactly 2^32 lovelace next to a bundle whose
-  value was measured at `max_val_size − 1` with a 5-byte minimum ADA is emitted 3 bytes over the limit (the code comment
-  at txbuilder.py:697 anticipates it: "There may be rare cases where adding ADA causes size exceeds limit").  The harness
-  (`checks/c08_ext_packfit.py`) replays the witness on the implementation, also at mainnet parameters through a whole
-  `build()`: one input of 2^32 + 1 000 000 lovelace with 142 tokens of one policy gives a single change output whose value
-  takes 5001 bytes under `max_val_size` 5000.
+* `pack_fit`: if no single asset alone exceeds the limit (measured like everything else: under the change coin), every
+  chunk fits next to EVERY coin between 0 and the change coin (the width of a coin is monotone: `coinLen_mono`, bignums
+  included); `pack_fit_own_min`: in particular with its own minimum ADA when that does not exceed the change coin.
+* `change_fit`: every change output `_calc_change` returns fits `max_val_size` with the coin it finally carries, when the
+  minimum-ADA requirement is on (each coin handed out then lies between 0 and the change coin: the refusal `change <
+  minAda(bundle)` is what guarantees it) or the change is a single output; `final_changes_fit`: hence every change output
+  `_add_change_and_fee` adds or merges fits (a relaxed requirement is only ever kept for a single change output).
+  Hypotheses that remain: coins-per-byte ≥ 0 and no single asset alone over the limit.
 * `pack_no_break`, `pack_preserves_of_fit`, `change_sum_of_fit`: with positive quantities (what `_calc_change` passes) and
   no single oversized asset the `break` is never taken, so nothing is lost; `pack_preserves_counterexample`: when the last
-  asset of a policy alone exceeds the limit the `break` IS taken and tokens vanish from the packing.
+  asset of a policy alone exceeds the limit the `break` IS taken and tokens vanish from the packing (limit below 86 bytes).
 * `pack_nonempty`, `pack_chunks_bounded`: progress and the bound on the number of chunks. -/
 
 namespace Pyc.C08.PackFit
@@ -55,7 +53,7 @@ theorem size_order_independent (c : Int) (m₁ m₂ : MultiAsset) (h1 : MultiAss
   vlen_sizeEq c m₁ m₂ (sizeEq_of_content m₁ m₂ h1 h2 h)
 
 /-- **what the overflow probe measures**: the value (new asset + buffered assets of the policy + output so far) with its
-coin replaced by the minimum ADA of that output, against `max_val_size` with a strict `>` -/
+coin replaced by the larger of the minimum ADA of that output and the coin the output holds, against `max_val_size` with a strict `>` -/
 theorem probe_measures (P : Params) (addr : Bytes) (out : Value) (cur : Asset) (pol n : Bytes) (q : Int) :
     overflow P addr out cur pol n q = true ↔
       P.maxValSize < probeLen P addr out.coin (MultiAsset.add [(pol, Asset.add cur [(n, q)])] out.ma) := by
@@ -68,73 +66,49 @@ theorem probe_is_stored_size (P : Params) (addr : Bytes) (out : Value) (pol : By
     probeLen P addr out.coin (MultiAsset.add [(pol, t)] out.ma) = probeLen P addr out.coin (flush out pol t).ma :=
   probeLen_sizeEq P addr out.coin _ _ (sizeEq_attempt_flush out pol t ho ht)
 
-/-- what is known of a chunk built while the output held coin `c` -/
-def Known (P : Params) (addr : Bytes) (ch : Value) (c : Int) (m : MultiAsset) : Prop :=
-  m = [] ∨ (∃ pa ∈ ch.ma, ∃ a ∈ pa.2, m = single pa.1 a) ∨ probeLen P addr c m ≤ P.maxValSize
+/-- what is known of a chunk (every output is built under the change coin) -/
+def Known (P : Params) (addr : Bytes) (ch : Value) (m : MultiAsset) : Prop :=
+  m = [] ∨ (∃ pa ∈ ch.ma, ∃ a ∈ pa.2, m = single pa.1 a) ∨ probeLen P addr ch.coin m ≤ P.maxValSize
 
-/-- **provenance of every chunk, for all inputs**: there is at least one chunk; the first was measured under the change
-coin, the later ones under coin 0; each is empty, or a single asset of the change on its own, or measured and fitting -/
+/-- **provenance of every chunk, for all inputs**: each is empty, or a single asset of the change on its own, or
+measured (under the change coin) and fitting -/
 theorem chunk_provenance (P : Params) (addr : Bytes) (ch : Value) :
-    ∃ m0 rest, (packTokens P addr ch).1 = m0 :: rest ∧ Known P addr ch ch.coin m0 ∧ ∀ m ∈ rest, Known P addr ch 0 m := by
-  have h := packTokens_arrOK P addr ch
-  have conv : ∀ c m, ChunkOK P addr ch.ma c m → Known P addr ch c m := by
-    intro c m hm
-    rcases hm with hm | hm | hm
-    · exact Or.inl hm
-    · exact Or.inr (Or.inl hm)
-    · exact Or.inr (Or.inr (by simpa [fits] using hm))
-  cases hl : (packTokens P addr ch).1 with
-  | nil => exact absurd hl (packTokens_ne_nil P addr ch)
-  | cons m0 rest =>
-    rw [hl] at h
-    exact ⟨m0, rest, rfl, conv _ _ h.1, fun m hm => conv _ _ (h.2 m hm)⟩
+    (packTokens P addr ch).1 ≠ [] ∧ ∀ m ∈ (packTokens P addr ch).1, Known P addr ch m := by
+  refine ⟨packTokens_ne_nil P addr ch, ?_⟩
+  intro m hm
+  rcases packTokens_arrOK P addr ch m hm with h | h | h
+  · exact Or.inl h
+  · exact Or.inr (Or.inl h)
+  · exact Or.inr (Or.inr (by simpa [fits] using h))
 
 /-- **what the code does with an asset that is too big on its own**: it emits it, alone — a chunk measured over the
-limit (under either coin) is a single asset (one policy, one name) of the change -/
+limit is a single asset (one policy, one name) of the change -/
 theorem oversized_chunk_is_single (P : Params) (addr : Bytes) (ch : Value) (m : MultiAsset)
-    (hm : m ∈ (packTokens P addr ch).1) (hne : m ≠ [])
-    (hover : P.maxValSize < probeLen P addr ch.coin m ∧ P.maxValSize < probeLen P addr 0 m) :
+    (hm : m ∈ (packTokens P addr ch).1) (hne : m ≠ []) (hover : P.maxValSize < probeLen P addr ch.coin m) :
     ∃ pa ∈ ch.ma, ∃ a ∈ pa.2, m = single pa.1 a := by
-  obtain ⟨m0, rest, hl, h0, hr⟩ := chunk_provenance P addr ch
-  rw [hl] at hm
-  simp only [List.mem_cons] at hm
-  rcases hm with rfl | hm
-  · rcases h0 with h | h | h
-    · exact absurd h hne
-    · exact h
-    · omega
-  · rcases hr m hm with h | h | h
-    · exact absurd h hne
-    · exact h
-    · omega
+  rcases (chunk_provenance P addr ch).2 m hm with h | h | h
+  · exact absurd h hne
+  · exact h
+  · omega
 
-/-- **size invariant of packing** (no single asset alone over the limit): every chunk fits next to ANY coin `c`, up to
-the number of bytes by which `c` is wider than the coin the chunk was measured with — the minimum ADA of the chunk in an
-output holding the change coin (first chunk) or nothing (later chunks) -/
-theorem pack_fit_partial (P : Params) (addr : Bytes) (ch : Value) (hs : noSingleOver P addr ch = true) :
-    ∃ m0 rest, (packTokens P addr ch).1 = m0 :: rest ∧
-      (m0 = [] ∨ ∀ c : Int, vlen ⟨c, m0⟩ + coinLen (probeCoin P addr ch.coin m0) ≤ P.maxValSize + coinLen c) ∧
-      ∀ m ∈ rest, m = [] ∨ ∀ c : Int, vlen ⟨c, m⟩ + coinLen (probeCoin P addr 0 m) ≤ P.maxValSize + coinLen c := by
-  have h := packTokens_arrFit P addr ch hs
-  cases hl : (packTokens P addr ch).1 with
-  | nil => exact absurd hl (packTokens_ne_nil P addr ch)
-  | cons m0 rest => rw [hl] at h; exact ⟨m0, rest, rfl, h.1, h.2⟩
+/-- **size invariant of packing** (no single asset alone over the limit): every chunk fits next to every coin between
+0 and the change coin -/
+theorem pack_fit (P : Params) (addr : Bytes) (ch : Value) (hs : noSingleOver P addr ch = true) :
+    ∀ m ∈ (packTokens P addr ch).1, ∀ c : Int, 0 ≤ c → c ≤ ch.coin → m = [] ∨ vlen ⟨c, m⟩ ≤ P.maxValSize :=
+  fun m hm c h0 hc => fitsX_coin P addr ch.coin m c (packTokens_arrFit P addr ch hs m hm) h0 hc
 
-/-- in particular every chunk but the first fits with its own minimum ADA — the coin `_calc_change` gives it unless it
-is the last — with no side condition on widths -/
+/-- … and next to ANY coin, up to the number of bytes by which it is wider than the coin the chunk was measured with -/
+theorem pack_fit_any_coin (P : Params) (addr : Bytes) (ch : Value) (hs : noSingleOver P addr ch = true) :
+    ∀ m ∈ (packTokens P addr ch).1,
+      m = [] ∨ ∀ c : Int, vlen ⟨c, m⟩ + coinLen (probeCoin P addr ch.coin m) ≤ P.maxValSize + coinLen c :=
+  packTokens_arrFit P addr ch hs
+
+/-- in particular every chunk fits with its own minimum ADA — the coin `_calc_change` gives it unless it is the last —
+whenever that minimum does not exceed the change coin (otherwise `_calc_change` refuses) -/
 theorem pack_fit_own_min (P : Params) (addr : Bytes) (ch : Value) (hs : noSingleOver P addr ch = true)
-    (m0 : MultiAsset) (rest : List MultiAsset) (hl : (packTokens P addr ch).1 = m0 :: rest) :
-    ∀ m ∈ rest, m = [] ∨ vlen ⟨minAda P addr ⟨0, m⟩, m⟩ ≤ P.maxValSize := by
-  obtain ⟨m0', rest', hl', _, hr⟩ := pack_fit_partial P addr ch hs
-  rw [hl] at hl'
-  obtain ⟨rfl, rfl⟩ : m0 = m0' ∧ rest = rest' := by simpa using hl'
-  intro m hm
-  rcases hr m hm with h | h
-  · exact Or.inl h
-  · right
-    have := h (minAda P addr ⟨0, m⟩)
-    unfold probeCoin at this
-    omega
+    (hcpb : 0 ≤ P.cpb) (m : MultiAsset) (hm : m ∈ (packTokens P addr ch).1)
+    (hle : minAda P addr ⟨0, m⟩ ≤ ch.coin) : m = [] ∨ vlen ⟨minAda P addr ⟨0, m⟩, m⟩ ≤ P.maxValSize :=
+  pack_fit P addr ch hs m hm _ (minAda_nonneg P addr _ hcpb) hle
 
 /-- **the `break` is never taken** when every quantity is positive (what `_calc_change` passes: `changeValue_pos`) and no
 single asset alone exceeds the limit -/
@@ -185,79 +159,42 @@ theorem pack_chunks_bounded (P : Params) (addr : Bytes) (ch : Value) :
 
 /-! ## the change outputs of `_calc_change` -/
 
-/-- the clause of C08 as one would like it (`allFit`: every change output that carries tokens fits `max_val_size`): whenever `_calc_change` returns (and no single asset alone exceeds the
-limit), every change output fits -/
-def change_fit_goal : Prop :=
-  ∀ (P : Params) (a : ChangeArgs) (cs : List Output), calcChange P a = .ok cs →
-    noSingleOver P a.addr (changeValue a) = true → allFit P cs = true
+/-- **the fit clause of C08**: every change output `_calc_change` returns fits `max_val_size` with the coin it finally
+carries — when the minimum-ADA requirement is on, or the change is a single output (the only case in which
+`_add_change_and_fee` keeps a result computed without the requirement) -/
+theorem change_fit (P : Params) (a : ChangeArgs) (cs : List Output) (h : calcChange P a = .ok cs)
+    (hs : noSingleOver P a.addr (changeValue a) = true) (hcpb : 0 ≤ P.cpb)
+    (hr : a.respect = true ∨ cs.length = 1) : allFit P cs = true := by
+  have := calcChange_fit P a cs h hs hcpb hr
+  simp only [allFit, List.all_eq_true, Bool.or_eq_true, decide_eq_true_eq, List.isEmpty_iff]
+  exact this
 
-/-- **what holds**: a change output exceeds the limit by at most the number of bytes by which its final coin is wider than
-the coin it was measured with (the minimum ADA of its bundle in an output holding the whole change coin, for the first
-output; in an output holding nothing, for the later ones) -/
-theorem change_fit_partial (P : Params) (a : ChangeArgs) (cs : List Output) (h : calcChange P a = .ok cs)
-    (hs : noSingleOver P a.addr (changeValue a) = true) :
-    ∃ o0 rest, cs = o0 :: rest ∧
-      (o0.amount.ma = [] ∨ vlen o0.amount + coinLen (probeCoin P a.addr (changeValue a).coin o0.amount.ma)
-          ≤ P.maxValSize + coinLen o0.amount.coin) ∧
-      ∀ o ∈ rest, o.amount.ma = [] ∨
-        vlen o.amount + coinLen (probeCoin P a.addr 0 o.amount.ma) ≤ P.maxValSize + coinLen o.amount.coin := by
-  obtain ⟨hne, hfit, _⟩ := calcChange_arrFit P a cs h hs
-  cases cs with
-  | nil => exact absurd rfl hne
-  | cons o0 rest =>
-    refine ⟨o0, rest, rfl, ?_, ?_⟩
-    · rcases hfit.1 with h1 | h1
-      · exact Or.inl h1
-      · exact Or.inr (h1 o0.amount.coin)
-    · intro o ho
-      rcases hfit.2 o.amount.ma (by simp only [List.mem_map]; exact ⟨o, ho, rfl⟩) with h1 | h1
-      · exact Or.inl h1
-      · exact Or.inr (h1 o.amount.coin)
+/-- … hence **every change output `_add_change_and_fee` adds (or merges) fits**: `_calc_changes()` keeps a result computed
+without the minimum-ADA requirement only when it is a single output -/
+theorem final_changes_fit (P : Params) (outs cs : List Output) (a : ChangeArgs) (mc : Bool)
+    (h : finalChanges P outs a mc = .ok cs)
+    (hs : noSingleOver P a.addr (changeValue (finalArgs outs a mc)) = true) (hcpb : 0 ≤ P.cpb) :
+    allFit P cs = true := by
+  obtain ⟨r, hcalc, _, hlen⟩ := Builder.finalChanges_calc P outs cs a mc h
+  have hr : (withRespect (finalArgs outs a mc) r).respect = true ∨ cs.length = 1 := by
+    by_cases hl : cs.length = 1
+    · exact Or.inr hl
+    · exact Or.inl (by simp [withRespect, hlen hl])
+  exact change_fit P (withRespect (finalArgs outs a mc) r) cs hcalc hs hcpb hr
 
-/-- **every change output except the first and the last fits**, no side condition: it is funded with exactly the coin
-it was measured with -/
+/-- every change output but the last holds exactly the minimum ADA of its bundle (priced with coin 0), whatever the
+flag; it fits whenever that minimum does not exceed the change coin -/
 theorem change_fit_middle (P : Params) (a : ChangeArgs) (cs : List Output) (h : calcChange P a = .ok cs)
-    (hs : noSingleOver P a.addr (changeValue a) = true) (o0 ol : Output) (mid : List Output)
-    (hcs : cs = o0 :: (mid ++ [ol])) : ∀ o ∈ mid, o.amount.ma = [] ∨ vlen o.amount ≤ P.maxValSize := by
-  obtain ⟨_, _, hcoin⟩ := calcChange_arrFit P a cs h hs
-  obtain ⟨o0', rest', hl, _, hr⟩ := change_fit_partial P a cs h hs
-  rw [hcs] at hl hcoin
-  obtain ⟨rfl, rfl⟩ : o0 = o0' ∧ mid ++ [ol] = rest' := by simpa using hl
+    (hs : noSingleOver P a.addr (changeValue a) = true) (hcpb : 0 ≤ P.cpb) :
+    ∀ o ∈ cs.dropLast, o.amount.coin = minAda P a.addr ⟨0, o.amount.ma⟩ ∧
+      (o.amount.coin ≤ (changeValue a).coin → o.amount.ma = [] ∨ vlen o.amount ≤ P.maxValSize) := by
+  obtain ⟨_, hfit, hcoin⟩ := calcChange_arrFit P a cs h hs
   intro o ho
-  have hdl : (o0 :: (mid ++ [ol])).dropLast = o0 :: mid := by
-    rw [List.dropLast_cons_of_ne_nil (by simp)]; simp
-  have hc := hcoin o (by rw [hdl]; simp [ho])
-  rcases hr o (by simp [ho]) with h1 | h1
-  · exact Or.inl h1
-  · right
-    unfold probeCoin at h1
-    rw [← hc] at h1
-    omega
-
-/-- **all change outputs fit when each holds less than 2^32 lovelace** (4 294.967296 ADA) and coins-per-byte is at least
-410 (mainnet: 4 310): the probe coin then takes at least 5 bytes and the final coin at most 5 -/
-theorem change_fit_below_2pow32 (P : Params) (a : ChangeArgs) (cs : List Output) (h : calcChange P a = .ok cs)
-    (hs : noSingleOver P a.addr (changeValue a) = true) (hcpb : 410 ≤ P.cpb)
-    (hc : ∀ o ∈ cs, 0 ≤ o.amount.coin ∧ o.amount.coin < 4294967296) :
-    ∀ o ∈ cs, o.amount.ma = [] ∨ vlen o.amount ≤ P.maxValSize := by
-  obtain ⟨o0, rest, hl, h0, hr⟩ := change_fit_partial P a cs h hs
-  have wide : ∀ c m, 5 ≤ coinLen (probeCoin P a.addr c m) := by
-    intro c m
-    apply coinLen_ge5
-    have := minAda_ge P a.addr ⟨c, m⟩ (by omega)
-    unfold probeCoin
-    omega
-  intro o ho
-  have hn := coinLen_le5 o.amount.coin (hc o ho).1 (hc o ho).2
-  rw [hl] at ho
-  simp only [List.mem_cons] at ho
-  rcases ho with rfl | ho
-  · rcases h0 with h1 | h1
-    · exact Or.inl h1
-    · right; have := wide (changeValue a).coin o.amount.ma; omega
-  · rcases hr o ho with h1 | h1
-    · exact Or.inl h1
-    · right; have := wide 0 o.amount.ma; omega
+  refine ⟨hcoin o ho, fun hle => ?_⟩
+  have hmem : o ∈ cs := List.dropLast_subset cs ho
+  have h0 : 0 ≤ o.amount.coin := by rw [hcoin o ho]; exact minAda_nonneg P a.addr _ hcpb
+  exact fitsX_coin P a.addr _ _ o.amount.coin
+    (hfit o.amount.ma (by simp only [List.mem_map]; exact ⟨o, hmem, rfl⟩)) h0 hle
 
 /-- with no single oversized asset the change outputs hold exactly `provided − requested`, for ADA and for every asset:
 `calcChange_sum` (C06 / C08) without its hypothesis on the `break` -/
@@ -267,7 +204,9 @@ theorem change_sum_of_fit (P : Params) (a : ChangeArgs) (cs : List Output) (h : 
     ∀ p n, sumAsset cs p n = MultiAsset.qty (provided a).ma p n - MultiAsset.qty (requested a).ma p n :=
   calcChange_sum P a cs h hw (calcChange_nobreak P a hs)
 
-/-- one asset with a 4-byte name, and 2^32 lovelace (+ the fee) of ADA: the change is one output -/
+/-- the input on which the clause used to fail (before 8c81354): one asset with a 4-byte name next to 2^32 lovelace under a
+45-byte limit.  Measured with the 9-byte coin the asset alone now takes 48 bytes: it is a single asset over the limit
+(outside `noSingleOver`), no longer an output that is emitted over the limit unnoticed -/
 def wArgs : ChangeArgs :=
   { fee := 170000
     inputs := [⟨4294967296 + 170000, [(wPol, [([1, 2, 3, 4], 1)])]⟩]
@@ -278,26 +217,20 @@ def wArgs : ChangeArgs :=
     addr := wAddr
     respect := true }
 
-/-- **the fit clause is false of the code as it is**: the bundle was measured at 44 ≤ 45 bytes with its 5-byte minimum
-ADA (1 043 020 lovelace); the change output then receives ALL the ADA, 2^32 lovelace, a 9-byte coin: 48 bytes -/
-theorem change_fit_counterexample : ¬ change_fit_goal := by
-  intro h
-  have key : (match calcChange wP wArgs with
-      | .ok cs => noSingleOver wP wArgs.addr (changeValue wArgs) && !allFit wP cs
-      | .error _ => false) = true := by decide +kernel
-  cases hc : calcChange wP wArgs with
-  | error e => rw [hc] at key; simp at key
-  | ok cs =>
-    rw [hc] at key
-    simp only [Bool.and_eq_true, Bool.not_eq_true'] at key
-    have := h wP wArgs cs hc key.1
-    rw [key.2] at this
-    simp at this
+example : noSingleOver wP wArgs.addr (changeValue wArgs) = false
+    ∧ probeLen wP wArgs.addr 4294967296 (changeValue wArgs).ma = 48 := by decide +kernel
+
+/-- … and under a limit of 48 bytes the same change is one output of exactly 48 bytes -/
+def wP48 : Params := { cpb := 4310, maxValSize := 48, keyDeposit := 2000000, poolDeposit := 500000000 }
+example : (match calcChange wP48 wArgs with
+    | .ok cs => noSingleOver wP48 wArgs.addr (changeValue wArgs) && allFit wP48 cs && decide (cs.length = 1)
+        && cs.all (fun o => decide (vlen o.amount = 48 ∧ o.amount.coin = 4294967296))
+    | .error _ => false) = true := by decide +kernel
 
 /-! ## non-vacuity, evaluated by the kernel -/
 
-/-- the hypotheses of `change_fit_partial` / `change_fit_below_2pow32` are met by a run that splits a bundle over three
-outputs, all of which fit (11 assets over 3 policies, limit 60 bytes: values of 56, 59 and 47 bytes) -/
+/-- the hypotheses of `change_fit` are met by a run that splits a bundle over three outputs, all of which fit (11 assets
+over 3 policies, limit 60 bytes) -/
 def exP : Params := { cpb := 4310, maxValSize := 60, keyDeposit := 2000000, poolDeposit := 500000000 }
 def exPol (i : Nat) : Bytes := List.replicate 28 (UInt8.ofNat (0xd0 + i))
 def exArgs : ChangeArgs :=
@@ -314,7 +247,7 @@ def exArgs : ChangeArgs :=
 
 example : (match calcChange exP exArgs with
     | .ok cs => noSingleOver exP exArgs.addr (changeValue exArgs) && allFit exP cs && decide (cs.length = 3)
-        && cs.all (fun o => decide (0 ≤ o.amount.coin ∧ o.amount.coin < 4294967296))
+        && decide (0 ≤ exP.cpb) && exArgs.respect
     | .error _ => false) = true := by decide +kernel
 
 /-- … and the remaining hypotheses (`ArgsWF`, positivity, a non-empty bundle) hold of the same run -/
@@ -345,15 +278,15 @@ end Pyc.C08.PackFit
 #print axioms Pyc.C08.PackFit.probe_is_stored_size
 #print axioms Pyc.C08.PackFit.chunk_provenance
 #print axioms Pyc.C08.PackFit.oversized_chunk_is_single
-#print axioms Pyc.C08.PackFit.pack_fit_partial
+#print axioms Pyc.C08.PackFit.pack_fit
+#print axioms Pyc.C08.PackFit.pack_fit_any_coin
 #print axioms Pyc.C08.PackFit.pack_fit_own_min
 #print axioms Pyc.C08.PackFit.pack_no_break
 #print axioms Pyc.C08.PackFit.pack_preserves_of_fit
 #print axioms Pyc.C08.PackFit.pack_preserves_counterexample
 #print axioms Pyc.C08.PackFit.pack_nonempty
 #print axioms Pyc.C08.PackFit.pack_chunks_bounded
-#print axioms Pyc.C08.PackFit.change_fit_partial
+#print axioms Pyc.C08.PackFit.change_fit
+#print axioms Pyc.C08.PackFit.final_changes_fit
 #print axioms Pyc.C08.PackFit.change_fit_middle
-#print axioms Pyc.C08.PackFit.change_fit_below_2pow32
 #print axioms Pyc.C08.PackFit.change_sum_of_fit
-#print axioms Pyc.C08.PackFit.change_fit_counterexample
